@@ -130,6 +130,57 @@ Section Loop.
         subst i. right. exists nn. split; auto. rewrite C6. lia.
   Qed.
 
+  (* ---------- the initial state ---------- *)
+  Lemma resolve_inv_init : forall rk fuel v root tree,
+    c_version rk = Ok v -> new_tree_node c_requirements c_matching v = Ok root ->
+    inject c_requirements c_matching fuel [set_id 0 root] 0 (t_ver root) = Ok tree ->
+    let st0 := {| s_tree := tree; s_g := {| g_nodes := [rk]; g_edges := []; g_errors := [] |}; s_log := [] |} in
+    inv rk (v_key v) st0 /\ pinv st0 [0] None.
+  Proof.
+    intros rk fuel v root tree Hv Hroot Hinj. apply new_tree_node_spec in Hroot.
+    destruct Hroot as [reqs [Hreqs Hroot]].
+    apply inject_spec in Hinj; [|simpl; lia]. destruct Hinj as [L [O N]]. simpl in *.
+    set (root0 := set_id 0 root) in *.
+    destruct (O 0 root0 eq_refl) as [rn [Hrn [Crn Ern]]].
+    apply core_fields in Crn. destruct Crn as [R1 [R2 [R3 [R4 [R5 [R6 R7]]]]]].
+    assert (Hnew : forall i m, 1 <= i -> nth_error tree i = Some m -> fresh_bundled i m).
+    { intros i m Hi Hm. destruct (N i m Hi Hm) as [F _]. exact F. }
+    set (st0 := {| s_tree := tree; s_g := {| g_nodes := [rk]; g_edges := []; g_errors := [] |}; s_log := [] |}).
+    assert (I0 : inv rk (v_key v) st0).
+    { unfold st0. constructor; cbn [s_tree s_g s_log g_nodes g_edges g_errors].
+      - exists rn. subst root0 root. simpl in *. repeat split; try congruence.
+        unfold gkey. rewrite R7, R2. reflexivity.
+      - reflexivity.
+      - intros i n Hn. destruct i as [|i].
+        + rewrite Hrn in Hn. inversion Hn; subst n. subst root0 root. simpl in *.
+          unfold Npm_inv.node_ok, ideps_ok, gkey. rewrite R5, R6, R7, R4, R2, R1.
+          repeat split; auto; try congruence. exists reqs. auto.
+        + destruct (Hnew (S i) n) as [b [p [F1 [F2 [F3 [F4 [F5 [F6 [rq [F7 F8]]]]]]]]]]; [lia | exact Hn |].
+          unfold Npm_inv.node_ok. repeat split; try congruence; try (intros; congruence).
+          exists rq. unfold gkey. rewrite F1. auto.
+      - intros k Hk Hkl. simpl in Hkl. lia.
+      - intros p pn c Hp Hc.
+        assert (Hc' : 1 <= c /\ c < length tree).
+        { destruct p as [|p].
+          - rewrite Hrn in Hp. inversion Hp; subst pn. destruct (Ern c Hc) as [F|F]; [|exact F].
+            exfalso. subst root0 root. destruct F as [k [F|F]]; simpl in F; discriminate.
+          - destruct (N (S p) pn) as [_ F]; [lia | exact Hp |]. apply F. exact Hc. }
+        destruct Hc' as [Hc1 Hc2]. destruct (nth_error tree c) as [cn|] eqn:E; [|apply nth_error_None in E; lia].
+        exists cn. split; auto. destruct (Hnew c cn Hc1 E) as [b [q [_ [F2 _]]]]. congruence.
+      - constructor.
+      - intros k Hk. simpl in Hk. assert (k = 0) by lia. subst k. constructor. }
+    assert (P0 : pinv st0 [0] None).
+    { unfold st0. constructor; cbn [s_tree s_g s_log g_nodes g_edges g_errors].
+      - intros i [Hi|[]]. subst i. exists rn. split; auto. left. reflexivity.
+      - intros i n Hn [Hh|Hh]; [right; left; auto|]. exfalso. destruct i as [|i].
+        + rewrite Hrn in Hn. inversion Hn; subst n. subst root0 root. simpl in *. congruence.
+        + destruct (Hnew (S i) n) as [b [p [_ [_ [_ [F4 _]]]]]]; [lia | exact Hn | contradiction].
+      - intros i n Hn Hpr. exfalso. destruct i as [|i].
+        + rewrite Hrn in Hn. inversion Hn; subst n. subst root0 root. simpl in *. congruence.
+        + destruct (Hnew (S i) n) as [b [p [_ [_ [_ [_ [F5 _]]]]]]]; [lia | exact Hn | congruence]. }
+    split; assumption.
+  Qed.
+
   (* Any further invariant J of the state (with the pending queue and the node in progress as
      context) that is preserved by one step is lifted through the loops together with inv. *)
   Section Lift.
@@ -151,18 +202,16 @@ Section Loop.
   Hypothesis J_finish : forall st cur q curn,
     J st q (Some (cur, t_ideps curn)) -> nth_error (s_tree st) cur = Some curn -> J st q None.
 
-  (* ---------- the inner loop ---------- *)
-  Lemma process_deps_inv : forall rvk rest done st cur curn insq q' st' insq',
+  (* ---------- one step with all its consequences ---------- *)
+  Lemma step_full : forall rvk d rest done st cur curn insq q' st1 insq1,
     inv rk rvk st -> pinv st (insq ++ q') (Some (cur, done)) -> J st (insq ++ q') (Some (cur, done)) ->
     nth_error (s_tree st) cur = Some curn -> t_processed curn = true ->
-    t_ideps curn = done ++ rest ->
-    process_deps ifuel st cur rest insq = Ok (st', insq') ->
-    inv rk rvk st' /\ pinv st' (insq' ++ q') (Some (cur, done ++ rest)) /\ J st' (insq' ++ q') (Some (cur, done ++ rest)) /\
-    exists curn', nth_error (s_tree st') cur = Some curn' /\ t_ideps curn' = t_ideps curn.
+    t_ideps curn = done ++ d :: rest ->
+    step_dep ifuel st cur d insq = Ok (st1, insq1) ->
+    inv rk rvk st1 /\ pinv st1 (insq1 ++ q') (Some (cur, done ++ [d])) /\ J st1 (insq1 ++ q') (Some (cur, done ++ [d])) /\
+    exists curn1, nth_error (s_tree st1) cur = Some curn1 /\ t_processed curn1 = true /\ t_ideps curn1 = t_ideps curn.
   Proof.
-    intros rvk rest. induction rest as [|d rest IH]; intros done st cur curn insq q' st' insq' I P HJ Hcur Hp Hid H.
-    - simpl in H. inversion H; subst. rewrite app_nil_r. split; auto. split; auto. split; auto. eauto.
-    - simpl in H. apply bind_ok in H. destruct H as [[st1 insq1] [Hs H]]. simpl in H.
+    intros rvk d rest done st cur curn insq q' st1 insq1 I P HJ Hcur Hp Hid Hs.
       assert (Hd : In d (t_ideps curn)) by (rewrite Hid; apply in_or_app; right; left; reflexivity).
       destruct (step_dep_inv _ _ _ _ _ _ _ _ _ _ _ _ _ _ I Hcur Hp Hd Hs) as [I1 [GL [Hh O]]].
       pose proof (J_step _ _ _ _ _ _ _ _ _ _ _ I P HJ Hcur Hp Hid Hs) as HJ1.
@@ -205,8 +254,23 @@ Section Loop.
               rewrite Nat.eqb_refl. exact Hx.
             * subst x. rewrite Eid. exact Hh.
           + rewrite Eid. eapply handled_mono; [exact GL|]. apply (pv_done _ _ _ P _ _ E0 Hp0). simpl. rewrite Ec. congruence. }
+      split; auto. split; auto. split; auto. exists curn1. repeat split; congruence.
+  Qed.
+
+  (* ---------- the inner loop ---------- *)
+  Lemma process_deps_inv : forall rvk rest done st cur curn insq q' st' insq',
+    inv rk rvk st -> pinv st (insq ++ q') (Some (cur, done)) -> J st (insq ++ q') (Some (cur, done)) ->
+    nth_error (s_tree st) cur = Some curn -> t_processed curn = true ->
+    t_ideps curn = done ++ rest ->
+    process_deps ifuel st cur rest insq = Ok (st', insq') ->
+    inv rk rvk st' /\ pinv st' (insq' ++ q') (Some (cur, done ++ rest)) /\ J st' (insq' ++ q') (Some (cur, done ++ rest)) /\
+    exists curn', nth_error (s_tree st') cur = Some curn' /\ t_ideps curn' = t_ideps curn.
+  Proof.
+    intros rvk rest. induction rest as [|d rest IH]; intros done st cur curn insq q' st' insq' I P HJ Hcur Hp Hid H.
+    - simpl in H. inversion H; subst. rewrite app_nil_r. split; auto. split; auto. split; auto. eauto.
+    - simpl in H. apply bind_ok in H. destruct H as [[st1 insq1] [Hs H]]. simpl in H.
+      destruct (step_full _ _ _ _ _ _ _ _ _ _ _ I P HJ Hcur Hp Hid Hs) as [I1 [P1 [HJ1 [curn1 [Hcur1 [Hp1 Hi1]]]]]].
       assert (Hid1 : t_ideps curn1 = (done ++ [d]) ++ rest) by (rewrite <- app_assoc; simpl; congruence).
-      assert (Hp1 : t_processed curn1 = true) by congruence.
       destruct (IH _ _ _ _ _ _ _ _ I1 P1 HJ1 Hcur1 Hp1 Hid1 H) as [I2 [P2 [HJ2 [curn2 [Hc2 Hi2]]]]].
       split; auto. rewrite <- app_assoc in P2, HJ2. split; [exact P2|]. split; [exact HJ2|].
       exists curn2. split; auto. congruence.
@@ -326,54 +390,52 @@ Section Loop.
     intros r H. unfold Npm.resolve in H.
     destruct (negb (N.eqb (vk_type rk) T_Concrete)); [discriminate|].
     apply bind_ok in H. destruct H as [v [Hv H]].
-    apply bind_ok in H. destruct H as [root [Hroot H]]. pose proof Hroot as Hroot0. apply new_tree_node_spec in Hroot.
-    destruct Hroot as [reqs [Hreqs Hroot]]. simpl in H.
-    apply bind_ok in H. destruct H as [tree [Hinj H]]. pose proof (J_init _ _ _ Hv Hroot0 Hinj) as HJ0.
+    apply bind_ok in H. destruct H as [root [Hroot H]]. simpl in H.
+    apply bind_ok in H. destruct H as [tree [Hinj H]]. pose proof (J_init _ _ _ Hv Hroot Hinj) as HJ0.
     apply bind_ok in H. destruct H as [st [Hout H]].
     apply bind_ok in H. destruct H as [errs [Hsw H]]. inversion H; subst r. simpl. clear H.
-    apply inject_spec in Hinj; [|simpl; lia]. destruct Hinj as [L [O N]]. simpl in *.
-    set (root0 := set_id 0 root) in *.
-    destruct (O 0 root0 eq_refl) as [rn [Hrn [Crn Ern]]].
-    apply core_fields in Crn. destruct Crn as [R1 [R2 [R3 [R4 [R5 [R6 R7]]]]]].
-    assert (Hnew : forall i m, 1 <= i -> nth_error tree i = Some m -> fresh_bundled i m).
-    { intros i m Hi Hm. destruct (N i m Hi Hm) as [F _]. exact F. }
-    set (st0 := {| s_tree := tree; s_g := {| g_nodes := [rk]; g_edges := []; g_errors := [] |}; s_log := [] |}).
-    assert (I0 : inv rk (v_key v) st0).
-    { unfold st0. constructor; cbn [s_tree s_g s_log g_nodes g_edges g_errors].
-      - exists rn. subst root0 root. simpl in *. repeat split; try congruence.
-        unfold gkey. rewrite R7, R2. reflexivity.
-      - reflexivity.
-      - intros i n Hn. destruct i as [|i].
-        + rewrite Hrn in Hn. inversion Hn; subst n. subst root0 root. simpl in *.
-          unfold Npm_inv.node_ok, ideps_ok, gkey. rewrite R5, R6, R7, R4, R2, R1.
-          repeat split; auto; try congruence. exists reqs. auto.
-        + destruct (Hnew (S i) n) as [b [p [F1 [F2 [F3 [F4 [F5 [F6 [rq [F7 F8]]]]]]]]]]; [lia | exact Hn |].
-          unfold Npm_inv.node_ok. repeat split; try congruence; try (intros; congruence).
-          exists rq. unfold gkey. rewrite F1. auto.
-      - intros k Hk Hkl. simpl in Hkl. lia.
-      - intros p pn c Hp Hc.
-        assert (Hc' : 1 <= c /\ c < length tree).
-        { destruct p as [|p].
-          - rewrite Hrn in Hp. inversion Hp; subst pn. destruct (Ern c Hc) as [F|F]; [|exact F].
-            exfalso. subst root0 root. destruct F as [k [F|F]]; simpl in F; discriminate.
-          - destruct (N (S p) pn) as [_ F]; [lia | exact Hp |]. apply F. exact Hc. }
-        destruct Hc' as [Hc1 Hc2]. destruct (nth_error tree c) as [cn|] eqn:E; [|apply nth_error_None in E; lia].
-        exists cn. split; auto. destruct (Hnew c cn Hc1 E) as [b [q [_ [F2 _]]]]. congruence.
-      - constructor.
-      - intros k Hk. simpl in Hk. assert (k = 0) by lia. subst k. constructor. }
-    assert (P0 : pinv st0 [0] None).
-    { unfold st0. constructor; cbn [s_tree s_g s_log g_nodes g_edges g_errors].
-      - intros i [Hi|[]]. subst i. exists rn. split; auto. left. reflexivity.
-      - intros i n Hn [Hh|Hh]; [right; left; auto|]. exfalso. destruct i as [|i].
-        + rewrite Hrn in Hn. inversion Hn; subst n. subst root0 root. simpl in *. congruence.
-        + destruct (Hnew (S i) n) as [b [p [_ [_ [_ [F4 _]]]]]]; [lia | exact Hn | contradiction].
-      - intros i n Hn Hpr. exfalso. destruct i as [|i].
-        + rewrite Hrn in Hn. inversion Hn; subst n. subst root0 root. simpl in *. congruence.
-        + destruct (Hnew (S i) n) as [b [p [_ [_ [_ [_ [F5 _]]]]]]]; [lia | exact Hn | congruence]. }
+    destruct (resolve_inv_init rk ifuel v root tree Hv Hroot Hinj) as [I0 P0].
     destruct (outer_inv _ _ _ _ _ I0 P0 HJ0 Hout) as [I1 [P1 HJ1]].
     destruct st as [t1 g1 l1]. simpl in *. exists v. auto.
   Qed.
   End Lift.
+
+  (* the instances without a further invariant *)
+  Definition Jtriv (_ : state) (_ : list nat) (_ : option (nat * list req)) : Prop := True.
+
+  Lemma step_full_triv : forall rk ifuel rvk d rest done st cur curn insq q' st1 insq1,
+    inv rk rvk st -> pinv st (insq ++ q') (Some (cur, done)) ->
+    nth_error (s_tree st) cur = Some curn -> t_processed curn = true ->
+    t_ideps curn = done ++ d :: rest ->
+    step_dep ifuel st cur d insq = Ok (st1, insq1) ->
+    inv rk rvk st1 /\ pinv st1 (insq1 ++ q') (Some (cur, done ++ [d])) /\
+    exists curn1, nth_error (s_tree st1) cur = Some curn1 /\ t_processed curn1 = true /\ t_ideps curn1 = t_ideps curn.
+  Proof.
+    intros rk ifuel rvk d rest done st cur curn insq q' st1 insq1 Iv P Hcur Hp Hid Hs.
+    destruct (step_full Jtriv rk ifuel) with (rvk := rvk) (d := d) (rest := rest) (done := done) (st := st) (cur := cur)
+      (curn := curn) (insq := insq) (q' := q') (st1 := st1) (insq1 := insq1) as [I1 [P1 [_ X]]]; unfold Jtriv; auto.
+  Qed.
+
+  Lemma process_deps_inv_triv : forall rk ifuel rvk rest done st cur curn insq q' st' insq',
+    inv rk rvk st -> pinv st (insq ++ q') (Some (cur, done)) ->
+    nth_error (s_tree st) cur = Some curn -> t_processed curn = true ->
+    t_ideps curn = done ++ rest ->
+    process_deps ifuel st cur rest insq = Ok (st', insq') ->
+    inv rk rvk st' /\ pinv st' (insq' ++ q') (Some (cur, done ++ rest)) /\
+    exists curn', nth_error (s_tree st') cur = Some curn' /\ t_ideps curn' = t_ideps curn.
+  Proof.
+    intros rk ifuel rvk rest done st cur curn insq q' st' insq' Iv P Hcur Hp Hid H.
+    destruct (process_deps_inv Jtriv rk ifuel) with (rvk := rvk) (rest := rest) (done := done) (st := st) (cur := cur)
+      (curn := curn) (insq := insq) (q' := q') (st' := st') (insq' := insq') as [I1 [P1 [_ X]]]; unfold Jtriv; auto.
+  Qed.
+
+  Lemma outer_inv_triv : forall rk ifuel rvk fuel st q st',
+    inv rk rvk st -> pinv st q None -> outer ifuel fuel st q = Ok st' -> inv rk rvk st' /\ pinv st' [] None.
+  Proof.
+    intros rk ifuel rvk fuel st q st' Iv P H.
+    destruct (outer_inv Jtriv rk ifuel) with (rvk := rvk) (fuel := fuel) (st := st) (q := q) (st' := st')
+      as [I1 [P1 _]]; unfold Jtriv; auto.
+  Qed.
 
   Theorem resolve_inv : forall fuel rk r,
     resolve fuel rk = Ok r ->
